@@ -9,6 +9,8 @@ for f in sorted(glob.glob("/tmp/seedres/*.json")):
     d = json.load(open(f))
     if d.get("demo_patched_rc") not in (0, None) and d.get("demo_pristine_rc") == 0:
         continue
+    if d.get("demo_rerun"): continue
+    d["demo_rerun"] = True
     D = "/tmp/seed_%s" % d["id"]; m = d["m"]; WT = D + "/wt"
     if not os.path.isdir(WT): continue
     cmd = ns["demo_cmd"]("%s/%s/demo.txt" % (D, m))
